@@ -2,6 +2,7 @@
 Ops: to4 obj ; to6 obj T|F ; mapped obj ; rt46 obj T|F  (ipv4() of ipv6(compat))
      obj = A:ver:val | N:ver:val:plen"""
 from common import Case, W, value_classes, rand_value, errname, tf, harvest_literals
+import common
 from netaddr import IPAddress, IPNetwork
 
 ID = 'C16'
@@ -102,7 +103,7 @@ def generate(rng, tier):
 def _make(o):
     if o[0] == 'A':
         return IPAddress(o[2], o[1])
-    return IPNetwork((o[2], o[3]), version=o[1])
+    return common.make_net(o[1], o[2], o[3])
 
 
 def _show(r):
